@@ -60,54 +60,42 @@ Theorem C20_trim_preserves_inv : forall sg veq st,
 Proof. exact trim_preserves_inv. Qed.
 Print Assumptions C20_trim_preserves_inv.
 
-(* FINDING: the unconditional statement is false.  def f(a=1, /, **kw); Config(f, 5, a=1): the
-   keyword a=1 belongs to **kw but is compared with the default of the positional-only parameter a
-   and removed, so f receives kw={} instead of kw={'a': 1}. *)
-Theorem C20_trim_changes_kwargs :
-  valid_sig cx_sg = true /\ inv01_b cx_sg cx_st = true /\ no_shadow cx_sg cx_st = false /\
+(* a **kwargs entry spelled like a positional-only parameter is not compared with that parameter's
+   default (this input was dropped before with_defaults_trimmed was repaired):
+   def f(a=1, /, **kw); Config(f, 5, a=1) *)
+Theorem C20_trim_keeps_kwargs :
+  valid_sig cx_sg = true /\ inv01_b cx_sg cx_st = true /\
+  trim cx_sg ref_eqb cx_st = cx_st /\
   build1 cx_sg cx_st = Some [ (1%N, PV (cx_int 5)); (8%N, PDict [(1%N, cx_int 1)]) ] /\
-  build1 cx_sg (trim cx_sg ref_eqb cx_st) = Some [ (1%N, PV (cx_int 5)); (8%N, PDict []) ].
-Proof. exact trim_changes_kwargs. Qed.
-Print Assumptions C20_trim_changes_kwargs.
+  build1 cx_sg (trim cx_sg ref_eqb cx_st) = Some [ (1%N, PV (cx_int 5)); (8%N, PDict [(1%N, cx_int 1)]) ].
+Proof. exact trim_keeps_kwargs. Qed.
+Print Assumptions C20_trim_keeps_kwargs.
 
-(* the strongest partial variant: no stored keyword is named like a positional-only parameter
-   (no_shadow); with exact equality of values the view is unchanged *)
-Theorem C20_trim_preserves_view_partial : forall sg st,
-  valid_sig sg = true -> keys_distinct st = true -> no_shadow sg st = true ->
+(* with exact equality of values the view is unchanged *)
+Theorem C20_trim_preserves_view : forall sg st,
+  valid_sig sg = true -> keys_distinct st = true ->
   reference_view sg (trim sg ref_eqb st) = reference_view sg st.
 Proof. exact trim_preserves_view. Qed.
-Print Assumptions C20_trim_preserves_view_partial.
+Print Assumptions C20_trim_preserves_view.
 
-Theorem C20_trim_preserves_build_partial : forall sg st,
-  valid_sig sg = true -> inv01_b sg st = true -> no_shadow sg st = true ->
+Theorem C20_trim_preserves_build : forall sg st,
+  valid_sig sg = true -> inv01_b sg st = true ->
   build1 sg (trim sg ref_eqb st) = build1 sg st.
 Proof. exact trim_preserves_build. Qed.
-Print Assumptions C20_trim_preserves_build_partial.
-
-(* without **kwargs the side condition follows from the storage invariant *)
-Theorem C20_trim_preserves_build : forall sg st,
-  valid_sig sg = true -> inv01_b sg st = true -> has_var_kw sg = false ->
-  build1 sg (trim sg ref_eqb st) = build1 sg st.
-Proof. exact trim_preserves_build_nokw. Qed.
 Print Assumptions C20_trim_preserves_build.
-
-Theorem C20_inv01_no_shadow : forall sg st,
-  has_var_kw sg = false -> inv01_b sg st = true -> no_shadow sg st = true.
-Proof. exact inv01_no_shadow. Qed.
-Print Assumptions C20_inv01_no_shadow.
 
 (* an arbitrary reflexive equality (Python ==): the callee's view after trimming is the view before
    with some values replaced by the veq-equal parameter default; *args and **kwargs are identical *)
 Theorem C20_trim_view_rel : forall veq sg st,
   (forall a, veq a a = true) ->
-  valid_sig sg = true -> keys_distinct st = true -> no_shadow sg st = true ->
+  valid_sig sg = true -> keys_distinct st = true ->
   view_rel veq (reference_view sg (trim sg veq st)) (reference_view sg st).
 Proof. exact trim_view_rel. Qed.
 Print Assumptions C20_trim_view_rel.
 
 Theorem C20_trim_build_rel : forall veq sg st,
   (forall a, veq a a = true) ->
-  valid_sig sg = true -> inv01_b sg st = true -> no_shadow sg st = true ->
+  valid_sig sg = true -> inv01_b sg st = true ->
   view_rel veq (build1 sg (trim sg veq st)) (build1 sg st).
 Proof. exact trim_build_rel. Qed.
 Print Assumptions C20_trim_build_rel.
@@ -119,19 +107,19 @@ Print Assumptions C20_view_rel_exact.
 (* trimming what was materialized gives back the same view *)
 Theorem C20_trim_materialize_view_rel : forall veq sg st,
   (forall a, veq a a = true) ->
-  valid_sig sg = true -> keys_distinct st = true -> no_shadow sg st = true ->
+  valid_sig sg = true -> keys_distinct st = true ->
   view_rel veq (reference_view sg (trim sg veq (materialize sg st))) (reference_view sg st).
 Proof. exact trim_materialize_view_rel. Qed.
 Print Assumptions C20_trim_materialize_view_rel.
 
 Theorem C20_trim_materialize_view : forall sg st,
-  valid_sig sg = true -> keys_distinct st = true -> no_shadow sg st = true ->
+  valid_sig sg = true -> keys_distinct st = true ->
   reference_view sg (trim sg ref_eqb (materialize sg st)) = reference_view sg st.
 Proof. exact trim_materialize_view. Qed.
 Print Assumptions C20_trim_materialize_view.
 
 Theorem C20_trim_materialize_build : forall sg st,
-  valid_sig sg = true -> inv01_b sg st = true -> no_shadow sg st = true ->
+  valid_sig sg = true -> inv01_b sg st = true ->
   build1 sg (trim sg ref_eqb (materialize sg st)) = build1 sg st.
 Proof. exact trim_materialize_build. Qed.
 Print Assumptions C20_trim_materialize_build.
@@ -145,7 +133,7 @@ Print Assumptions C20_trim_sget_needs_distinct.
 
 (* non-vacuity: def f(a=1, b=2, /, c=3, *, k=4); {1: 20, 'k': 4} *)
 Theorem C20_nonvacuous :
-  valid_sig ex20_sg = true /\ inv01_b ex20_sg ex20_st = true /\ no_shadow ex20_sg ex20_st = true /\
+  valid_sig ex20_sg = true /\ inv01_b ex20_sg ex20_st = true /\
   materialize ex20_sg ex20_st =
     [ (KPos 1, cx_int 20); (KName 4, cx_int 4); (KPos 0, cx_int 1); (KName 3, cx_int 3) ] /\
   build1 ex20_sg ex20_st = Some ex20_view /\
@@ -158,7 +146,7 @@ Print Assumptions C20_nonvacuous.
 (* FINDING (known): == is not identity.  def g(x=1); Config(g, x=True): True == 1, x is trimmed and
    g receives 1; C20_trim_build_rel is the most that holds for Python equality *)
 Theorem C20_trim_py_eq_changes_value :
-  valid_sig cx_sg3 = true /\ inv01_b cx_sg3 cx_st3 = true /\ no_shadow cx_sg3 cx_st3 = true /\
+  valid_sig cx_sg3 = true /\ inv01_b cx_sg3 cx_st3 = true /\
   build1 cx_sg3 cx_st3 = Some [ (1%N, PV (RA (ABool true))) ] /\
   build1 cx_sg3 (trim cx_sg3 leaf_eq cx_st3) = Some [ (1%N, PV (cx_int 1)) ].
 Proof. exact trim_py_eq_changes_value. Qed.
@@ -248,7 +236,7 @@ Print Assumptions C20_wdt_faithful.
 (* and each of those is called with ==-equal arguments *)
 Theorem C20_wdt_preserves_calls : forall e h i k fn args tags,
   nth_error h i = Some (NBuildable k fn args tags) ->
-  valid_sig (sig_of e fn) = true -> keys_distinct args = true -> no_shadow (sig_of e fn) args = true ->
+  valid_sig (sig_of e fn) = true -> keys_distinct args = true ->
   exists args', nth_error (pre_trim e h) i = Some (NBuildable k fn args' tags) /\
     view_rel leaf_eq (reference_view (sig_of e fn) args') (reference_view (sig_of e fn) args).
 Proof. exact wdt_preserves_calls. Qed.
